@@ -81,6 +81,46 @@ fn wrappers() -> Vec<Value> {
                   vec![OwnedTerm::Tuple(vec![OwnedTerm::Integer(1 << 40), OwnedTerm::Nil]), OwnedTerm::List(vec![OwnedTerm::Float(1.5)])]] {
         rt!("map_set", ElixirMapSet::from_values(items.clone()), ElixirMapSet);
     }
+    // date-times with zones, offsets and extreme years
+    for (y, us, p, tz, ab, uo, so) in [(2024, 0u32, 0u8, "Etc/UTC", "UTC", 0i32, 0i32), (i32::MAX, 999_999, 6, "Europe/Berlin", "CEST", 3600, 3600), (i32::MIN, 1, 6, "America/St_Johns", "NST", -12600, 0),
+                                       (1, 123_000, 3, "Asia/Kathmandu", "+0545", 20700, 0), (9999, 0, 0, "é/zone", "", i32::MAX, i32::MIN)] {
+        rt!("datetime", ElixirDateTime::with_timezone(y, 12, 31, 23, 59, 59, us, p, tz, ab, uo, so), ElixirDateTime);
+    }
+    rt!("datetime", ElixirDateTime::utc(2024, 2, 29, 0, 0, 0, 0, 0), ElixirDateTime);
+    rt!("naive_datetime", ElixirNaiveDateTime::new(i32::MAX, 12, 31, 23, 59, 59, 999_999, 6), ElixirNaiveDateTime);
+    // map sets: duplicates in the input, nested sets, terms of every kind
+    rt!("map_set", ElixirMapSet::from_values(vec![OwnedTerm::Integer(1), OwnedTerm::Integer(1), OwnedTerm::Float(1.0), OwnedTerm::Atom(Atom::new("a")), OwnedTerm::Atom(Atom::new("a"))]), ElixirMapSet);
+    rt!("map_set", ElixirMapSet::from_values(vec![OwnedTerm::from(ElixirMapSet::from_values(vec![OwnedTerm::Integer(2)])), OwnedTerm::Nil, OwnedTerm::Map(Default::default())]), ElixirMapSet);
+    rt!("map_set", ElixirMapSet::from_values((0..300).map(OwnedTerm::Integer).collect::<Vec<_>>()), ElixirMapSet);
+    // the remaining exception structs
+    rt!("key_error", KeyError::with_message(OwnedTerm::Integer(1), OwnedTerm::Nil, "no such key é"), KeyError);
+    rt!("undefined_function_error", UndefinedFunctionError::with_reason("Mod", "f", 0, "module could not be loaded"), UndefinedFunctionError);
+    rt!("undefined_function_error", UndefinedFunctionError::new("", "", 0), UndefinedFunctionError);
+    rt!("arithmetic_error", ArithmeticError::bad_argument(), ArithmeticError);
+    rt!("bad_function_error", BadFunctionError::new(OwnedTerm::Tuple(vec![OwnedTerm::Integer(i64::MAX)])), BadFunctionError);
+    rt!("function_clause_error", FunctionClauseError::new("M", "fun", 255, OwnedTerm::List(vec![OwnedTerm::Integer(1), OwnedTerm::Integer(1 << 40)])), FunctionClauseError);
+    rt!("function_clause_error", FunctionClauseError::empty(), FunctionClauseError);
+    rt!("function_clause_error", FunctionClauseError { module: Some("M.Sub".into()), function: None, arity: Some(0), args: None }, FunctionClauseError);
+    rt!("function_clause_error", FunctionClauseError { module: None, function: Some("f".into()), arity: None, args: Some(OwnedTerm::Nil) }, FunctionClauseError);
+    // a module given with its Elixir. prefix names the same module: it comes back in the unprefixed form (normalisation, see DESIGN 10.6)
+    {
+        let alias = |name: &str, back: Option<String>, want: &str| json!({"wrapper": name, "alias": true, "value": want, "direct_same": back.as_deref() == Some(want), "wire_same_repr": true, "term": Value::Null, "wire_back_term": Value::Null});
+        let t: OwnedTerm = FunctionClauseError::new("Elixir.M", "f", 1, OwnedTerm::Nil).into();
+        out.push(alias("function_clause_error", FunctionClauseError::from_term(&t).and_then(|e| e.module), "M"));
+        let t: OwnedTerm = UndefinedFunctionError::new("Elixir.Mod", "f", 0).into();
+        out.push(alias("undefined_function_error", UndefinedFunctionError::from_term(&t).map(|e| e.module), "Mod"));
+    }
+    // an arity that does not fit is rejected, not wrapped
+    for bad in [256i64, -1, 1 << 40, i64::MIN] {
+        for which in ["function_clause_error", "undefined_function_error"] {
+            let t: OwnedTerm = if which == "function_clause_error" { FunctionClauseError::new("M", "f", 3, OwnedTerm::Nil).into() } else { UndefinedFunctionError::new("M", "f", 3).into() };
+            let t = match t { OwnedTerm::Map(mut m) => { m.insert(OwnedTerm::Atom(Atom::new("arity")), OwnedTerm::Integer(bad)); OwnedTerm::Map(m) } o => o };
+            let rejected = |t: &OwnedTerm| if which == "function_clause_error" { FunctionClauseError::from_term(t).is_none() } else { UndefinedFunctionError::from_term(t).is_none() };
+            let wire = erltf::encode(&t).ok().and_then(|b| erltf::decode(&b).ok());
+            out.push(json!({"wrapper": which, "reject": true, "value": format!("arity {bad}"), "direct_same": rejected(&t), "wire_same_repr": wire.as_ref().map(|t2| rejected(t2)).unwrap_or(false), "term": denote(&t), "wire_back_term": Value::Null}));
+        }
+    }
+    rt!("cond_clause_error", CondClauseError::new(), CondClauseError);
     rt!("argument_error", ArgumentError::new("bad argument é"), ArgumentError);
     rt!("runtime_error", RuntimeError::new(""), RuntimeError);
     rt!("key_error", KeyError::new(OwnedTerm::Atom(Atom::new("k")), OwnedTerm::Map(Default::default())), KeyError);
